@@ -213,8 +213,33 @@ fn c15_subs() -> Vec<Box<dyn Sub>> {
     ]
 }
 
+fn real_types_sub(name: &'static str, quick: u64, thorough: u64, body: fn(&ProgCase, &mut Obs) -> Result<(), String>) -> Vec<Box<dyn Sub>> {
+    vec![Box::new(Check { name, quick, thorough, strat: Box::new(|| mixed_case(1)), body: Box::new(body), guard_death: false, max_shrink: 96 })]
+}
+
 pub fn all() -> Vec<PropDef> {
     vec![
+        PropDef {
+            id: "C01",
+            rule: "second engine (generated programs): registries of real Rust types - 1-3 generated derive inputs (generics, recursion, PhantomData, lifetimes) plus built-in type expressions - printed by a compiled program; oracle = dense and closed, ids handed out resolve, retain under a generated mask is again dense and closed; non-trivial and distinct as in the first engine",
+            assumptions: &[],
+            subs: || real_types_sub("derived_registries", 500, 12_000, c01_prog_body),
+            extra: None,
+        },
+        PropDef {
+            id: "C02",
+            rule: "second engine (generated programs): inside each compiled program every (MetaType, id) pair reachable from the registered roots is compared with MetaType::type_info() through every reference (vsupport::sim); roots are generated derive inputs and nested built-in constructors; non-trivial = at least two (type, id) pairs compared",
+            assumptions: &[],
+            subs: || real_types_sub("faithful_image_real_types", 600, 16_000, c02_prog_body),
+            extra: None,
+        },
+        PropDef {
+            id: "C11",
+            rule: "second engine (generated programs): the same compiled program run in two processes prints byte-identical registries; a second program registering the same roots in another order prints a registry isomorphic under the root-induced renaming; roots are generated derive inputs and built-in type expressions",
+            assumptions: &[],
+            subs: || real_types_sub("reproducible_across_processes", 300, 8_000, c11_prog_body),
+            extra: None,
+        },
         PropDef {
             id: "C15",
             rule: "generated corpus programs (2-5 derived definitions with every attribute class plus built-in type expressions; a separate lane with BitVec) compiled and run against scale-info built under several feature sets: quick = 6 covering sets (none, std, serde+decode without std, bit-vec+docs, schema, all), thorough = all 48 distinct sets; oracle = byte equality of encode(PortableRegistry) for sets with equal docs setting, and across docs on/off equality after blanking docs plus docs-off contained in docs-on; non-trivial = a (program, pair of differing feature sets), distinct by that triple",
